@@ -136,6 +136,11 @@ func genIsolationPlan(seed uint64, tier string) *Plan {
 			op.DelayUs = 0
 		} else {
 			op.DelayUs = int64(200 + g.intn(2000))
+			if i > 3 && g.chance(8) {
+				// a quiet half minute (or several) between two bursts: whatever the proxy does with its buffers while
+				// idle must not show in what follows
+				op.DelayUs = int64(g.pick2(31, 45, 125)) * 1000000
+			}
 		}
 		p.Ops = append(p.Ops, op)
 	}
@@ -189,7 +194,7 @@ func execIsolation(t *testing.T, p *Plan) *Result {
 			l := p.Cfg.Listens[op.Listen]
 			w.N.InjectUDP(udpAddr(hostPort(op.SrcIP, op.SrcPort)), udpAddr(hostPort(l.Addr, l.UDP)), op.Data, at+100*time.Microsecond)
 		}
-		w.K.Settle(time.Minute)
+		w.K.Settle(time.Minute + at)
 		if w.dead() {
 			return
 		}
